@@ -108,3 +108,34 @@ func HarnessModIntCopy(p0, p1, p2 int) {
 	}
 	vreach("end")
 }
+
+// C02 — SetBytes / NewIntBytes: the value of the byte string in the declared byte order, REDUCED modulo m (in
+// particular the encodings of m itself and of multiples of m give 0). p1: 0 big, 1 little endian; p2: length.
+func HarnessModIntSetBytes(p0, p1, p2 int) {
+	m := compatiblemod.NewInt(int64(p0))
+	buf := make([]byte, p2)
+	var v int64
+	for k := range buf {
+		buf[k] = nondetU8()
+	}
+	for k := 0; k < p2; k++ {
+		if p1 == 1 {
+			v = v*256 + int64(buf[p2-1-k])
+		} else {
+			v = v*256 + int64(buf[k])
+		}
+	}
+	bo := kyber.BigEndian
+	if p1 == 1 {
+		bo = kyber.LittleEndian
+	}
+	i := NewIntBytes(buf, m, bo)
+	vreach("end")
+	got := i.V.Int.Int64()
+	vassert(got == v%int64(p0), "SetBytes: the value of the bytes in the declared order, reduced modulo m")
+	vassert(got >= 0 && got < int64(p0), "SetBytes: the result is canonical (0 <= v < m)")
+	j, _ := miArb(m, p0)
+	j.BO = bo
+	j.SetBytes(buf)
+	vassert(j.V.Int.Int64() == got, "SetBytes on a used receiver gives the same value")
+}
